@@ -53,6 +53,20 @@ def _real_expand(args, real, now_tuple, off):
     return [str(p) for p in got]
 
 
+def _real_expand_seq(args, real, nows):
+    """unpatched function, ONE import of the module, one expansion per frozen local time (UTC zone)"""
+    import importlib
+    from pathlib import Path
+    from freezegun import freeze_time
+    fgm = importlib.reload(importlib.import_module("zorg.service.file_groups"))
+    out = []
+    for now in nows:
+        with freeze_time(dt.datetime(*now)):
+            out.append([str(p) for p in fgm.expand_file_group_paths(
+                [Path(a) if not a.startswith("@") else a for a in args], file_group_map=real)])
+    return out
+
+
 def _real_clock_expand(args, real, groups, m, off):
     import importlib
     import time
@@ -94,6 +108,18 @@ def replayer(name, args, kwargs, meta):
         groups = {"g0": ["@g1", "P"] if nested else [m.MEMBERS[mm], "P"], "g1": [m.MEMBERS[mm]], "g2": []}
         a = ["x.zo", "@g0"]
         now = m.NOWS[now_i]
+    elif name == "two_days":
+        mm, nested, now_a, now_b = args
+        groups = {"g0": ["@g1", "P"] if nested else [m.MEMBERS[mm], "P"], "g1": [m.MEMBERS[mm]], "g2": []}
+        real = {k: ["p.zo" if x == "P" else x for x in v] for k, v in groups.items()}
+        a = ["x.zo", "@g0"]
+        got = _real_expand_seq(a, real, [m.NOWS[now_a], m.NOWS[now_b]])
+        for g, now in zip(got, (m.NOWS[now_a], m.NOWS[now_b])):
+            want = [str(Path(w)) for w in m.o_expand(a, groups, "p.zo", dt.date(*now[:3]))]
+            if g != want:
+                return True, {"summary": "groups %r, arguments %r expanded at local times %r and then %r in one process: the "
+                                         "expansion at %r gives %r, expected %r" % (real, a, m.NOWS[now_a], m.NOWS[now_b], now, g, want)}
+        return False, {"summary": "both expansions as expected"}
     elif name == "concat":
         m00, m01, m10, a0, a1, a2 = args
         g0 = [m.SMALL[i] for i in (m00, m01) if m.SMALL[i]]
@@ -144,7 +170,7 @@ def main():
             "CrossHair/z3 symbolic execution of the real expand_file_group_paths / _paths_from_file_group against an "
             "independent recursive flattening: all acyclic structures of the stated shape (shared sub-groups, diamonds, "
             "repeats, empty groups, a group that is also an argument), date patterns on days around month/year boundaries "
-            "in zones UTC-12/UTC/UTC+14, the concatenation law, and pass-through of ordinary paths."),
+            "in zones UTC-12/UTC/UTC+14, two expansions on different days in one process, the concatenation law, and pass-through of ordinary paths."),
         functions=["zorg.service.file_groups.expand_file_group_paths", "zorg.service.file_groups._paths_from_file_group"],
         stubs=["clock: datetime.now() = harness-chosen local time; datetime.now(tz) = the same instant in tz for a zone "
                "UTC_OFFSET_H hours from UTC (replay uses the real clock: TZ + freezegun)"],
@@ -157,7 +183,13 @@ def main():
                  "members containing braces that are not date patterns",
                  "the callers' defaults (_process_zo_paths, clack_parser): argument plumbing, not modelled"])
     T = 150 if tier == "quick" else 500
-    conds = [xh.Cond(H, n, timeout=T, meta={"family": "c18"}) for n in ("nesting", "dates", "concat", "plain_name")]
+    # engine cross-validation spaces (vlib/concrete_worker.py); CrossHair skips functools.lru_cache under tracing, so a result
+    # remembered across calls (two_days) can only show in the untraced runs
+    CC = {"nesting": [[0, 4], [0, 4], [0, 4], [-1, 3]], "dates": [[4, 8], [0, 2], [0, 3], [-12, 15]],
+          "two_days": [[4, 8], [0, 2], [0, 3], [0, 3]], "concat": [[0, 4], [0, 4], [0, 4], [0, 3], [0, 3], [2, 3]],
+          "plain_name": [[0, 7], [0, 2]]}
+    conds = [xh.Cond(H, n, timeout=T, meta={"family": "c18"}, cc={"ranges": CC[n], "max": 400})
+             for n in ("nesting", "dates", "two_days", "concat", "plain_name")]
     conds.append(xh.Cond(H, "nesting", timeout=30, twin=True, meta={"family": "twin"}))
     conds.append(xh.Cond(H, "dates", timeout=30, twin=True, meta={"family": "twin"}))
     results = xh.run_all(conds)
